@@ -246,7 +246,7 @@ const DIRECTED: [(&str, &str, &str, &str, &str); 26] = [
     ("fn-keywords", "", "fn var(x: int32) -> int32 { x }\nfn func(x: int32) -> int32 { x }\nfn chan(x: int32) -> int32 { x }\nfn range(x: int32) -> int32 { x }", "let _ = string_println(int32_to_string(var(1) + func(2) + chan(3) + range(4)));", "10\n"),
     ("fn-init", "names:go-init", "fn init(x: int32) -> int32 { x }", "let _ = string_println(int32_to_string(init(7)));", "7\n"),
     ("fn-missing", "names:runtime-helper", "fn missing(x: string) -> int32 { 5 }", "let _ = string_println(int32_to_string(missing(\"x\")));", "5\n"),
-    ("fn-main0", "names:runtime-helper", "fn main0(x: int32) -> int32 { x }", "let _ = string_println(int32_to_string(main0(7)));", "7\n"),
+    ("fn-main0", "names:entry-wrapper", "fn main0(x: int32) -> int32 { x }", "let _ = string_println(int32_to_string(main0(7)));", "7\n"),
     ("fn-temp-like", "names:temp-like", "fn t3(x: int32) -> int32 { x * 2 }", "let a = t3(1) + t3(2) + t3(3) + t3(4); let _ = string_println(int32_to_string(a));", "20\n"),
     ("locals-predeclared", "", "", "let len = 1; let nil = 2; let append = 3; let _ = string_println(int32_to_string(len + nil + append + string_len(\"ab\")));", "8\n"),
     ("locals-temp-like", "", "", "let t1 = 1; let ret0 = 2; let mtmp0 = 3; let x0 = 4; let _ = string_println(int32_to_string(t1 + ret0 + mtmp0 + x0));", "10\n"),
